@@ -57,6 +57,8 @@ class _D:
 
 
 class _Live:
+    last = None
+
     def __init__(self, *a, **k):
         pass
 
@@ -66,8 +68,8 @@ class _Live:
     def __exit__(self, *a):
         return False
 
-    def update(self, *a, **k):
-        pass
+    def update(self, table, *a, **k):
+        _Live.last = table
 
     def stop(self):
         pass
@@ -141,6 +143,7 @@ def run_step(tree, cache_text, cache_dir_exists=True, marker_files=True):
         saved[(mod, name)] = mod.__dict__.get(name, None)
         setattr(mod, name, val)
     out = {"raised": None}
+    _Live.last = None
     try:
         try:
             scanmod.scan_command(FP("/w"))
@@ -154,6 +157,11 @@ def run_step(tree, cache_text, cache_dir_exists=True, marker_files=True):
             else:
                 setattr(mod, name, val)
     out["analysed"] = analysed
+    tbl = _Live.last
+    out["displayed"] = None
+    if tbl is not None and hasattr(tbl, "_stc"):
+        st = tbl._stc
+        out["displayed"] = {lt.language: (lt.files, lt.loc, lt.functions, lt.hard_to_maintain, lt.unmaintainable) for lt in st.languages_totals()}
     out["written"] = fs.files.get("/w/.codelimit_cache/codelimit.json")
     out["fs"] = fs
     return out
@@ -198,6 +206,12 @@ def check_step(tree, cached, same_version, out):
     r.uuid, r.timestamp = "u", "t"
     if json.loads(ReportWriter(fr).to_json())["codebase"] != json.loads(ReportWriter(r).to_json())["codebase"]:
         bad.append("totals-or-tree-differ-from-fresh-scan")
+    if json.loads(ReportWriter(fr).to_json())["codebase"] != json.loads(w)["codebase"]:
+        bad.append("written-document-codebase-section-differs-from-fresh-scan")
+    # what the scan displayed while running (the live overview table) are the totals of THIS codebase
+    exp_disp = {k: (t.files, t.loc, t.functions, t.hard_to_maintain, t.unmaintainable) for k, t in fresh.totals.items()}
+    if out.get("displayed") is not None and out["displayed"] != exp_disp and present:
+        bad.append("displayed-totals-differ-from-the-scanned-codebase")
     fsx = out["fs"]
     if not (fsx.is_file("/w/.codelimit_cache/CACHEDIR.TAG") and fsx.is_file("/w/.codelimit_cache/.gitignore")) and False:
         bad.append("marker-files-missing")
@@ -218,7 +232,12 @@ def _step(tvals, cvals, has_cache, same_version):
     cached = {p: c for p, c in zip(POOL, cvals) if c >= 0} if has_cache else None
     text = make_cache_text(cached, same_version) if has_cache else None
     out = run_step(tree, text, cache_dir_exists=has_cache)
-    return check_step(tree, cached, same_version, out)
+    bad = check_step(tree, cached, same_version, out)
+    if not bad:
+        # the same process scans again (second scan of the history): everything is served from the cache just written and the displayed totals are again those of this codebase only
+        out2 = run_step(tree, out["written"], cache_dir_exists=True)
+        bad = ["second-scan:" + b for b in check_step(tree, dict(tree), True, out2)]
+    return bad
 
 
 def h_step(t0: int, t1: int, t2: int, e0: int, e1: int, e2: int, has_cache: bool, same_version: bool) -> bool:
@@ -346,6 +365,18 @@ def check_damaged(out):
         bad.append("report-differs-from-fresh-scan")
     if ReportReader.get_report_version(w) != Report.VERSION:
         bad.append("written-version")
+    fresh = Codebase("/w")
+    for p_ in r.codebase.files.keys():
+        if p_ in BASE_TREE:
+            fresh.add_file(A(p_, BASE_TREE[p_]))
+    fresh.aggregate()
+    fr = Report.__new__(Report)
+    fr.version, fr.uuid, fr.timestamp, fr.repository, fr.codebase = Report.VERSION, "u", "t", None, fresh
+    doc = json.loads(w)
+    if doc.get("codebase") != json.loads(ReportWriter(fr).to_json())["codebase"]:
+        bad.append("cache-left-behind-differs-from-a-fresh-scan-document(codebase section)")
+    if not all(isinstance(doc.get(k), str) and doc.get(k) for k in ("version", "uuid", "timestamp", "root")):
+        bad.append("cache-left-behind-incomplete(top-level keys)")
     fsx = out["fs"]
     if not (fsx.is_file("/w/.codelimit_cache/CACHEDIR.TAG") and fsx.is_file("/w/.codelimit_cache/.gitignore")):
         bad.append("cache-directory-incomplete(marker-files)")
